@@ -19,7 +19,9 @@ META = {
     "note": "Bounded: exhaustive part 1 series x <=3 samples x 3 gaps, expressions of <=2 wrappers over small offset/@/range/step "
             "alphabets; 2 series x <=2 samples for cross-series state; larger alphabets (2 series x 4 samples, 4 wrappers, negative model "
             "times) only by seeded simulation. Sample values are identifiers, not arithmetic. Anchored/smoothed selectors are not covered. "
-            "Known finding KF-C28-1 (timestamp() drops the offset of an @-selector) is reported, not failed.",
+            "Known findings KF-C28-1 (timestamp() drops the offset of an @-selector) and KF-C28-2 (runSubquery skips re-basing @ offsets when the "
+            "first subquery step equals the evaluation start) are reported, not failed; a mismatch counts as known only if the engine returns "
+            "exactly what the as-is transcription in PromqlEngine.tla predicts.",
     "technique": "TLA+ reference evaluator + implementation-shaped transcription compared by TLC; TLC-generated cases replayed into promql.Engine over a TSDB",
     "design_ref": "DESIGN.md §5 C28",
     "level": "model_checking",
